@@ -145,6 +145,13 @@ def components():
     add('p_ref', lambda i: [('s%d' % i, pos(R(SUB), 'at', C(2)))])
     add('p_d0', lambda i: [('n%d' % i, I(1)), ('d%d' % i, pos(D(F('n%d' % i)), 'at', C(3)))])
     add('p_bits', lambda i: [('p%d' % i, pos(B(4), 'at', C(1))), ('q%d' % i, B(4))])
+    # embedded packets: the fields of another class become fields of this one (kept inline in the IR, see ir.embeds)
+    def emb(i, flds):
+        flds[0][1]['_embed'] = {'name': 'e%d' % i, 'cls': 'Emb%d' % i, 'n': len(flds)}
+        return flds
+    add('eb1', lambda i: [('h%d' % i, I(1))] + emb(i, [('x%de' % i, I(1)), ('y%de' % i, D(F('x%de' % i)))]))
+    add('eb2', lambda i: emb(i, [('x%de' % i, I(2, end='little')), ('y%de' % i, I(3, signed=True)), ('z%de' % i, D(C(1), default=b'q'))]))
+    add('ebs', lambda i: emb(i, [('n%de' % i, I(1)), ('l%de' % i, S(I(1), F('n%de' % i)))]) + [('t%d' % i, I(1))])
     add('p_opt', lambda i: [('t%d' % i, I(1)), ('o%d' % i, pos(O(I(1), F('t%d' % i)), 'aligned', C(2)))])
     return c
 
@@ -219,7 +226,7 @@ def boundary_specs(sizes=(255, 256, 257), wrappers='ab', cut=True):
     return specs
 
 # one representative per mechanism, used for pairs in the quick tier and triples in the thorough tier
-REDUCED = ['i1', 'i2l', 'i3', 'dn', 'dx', 'm0', 'mab', 'rx', 'rxlb', 'b35', 'r1', 'rs', 'rst', 'sn', 'ss', 'su', 'suo', 'sua', 'sw', 'sa', 'sr', 'o1', 'oz', 'os', 'or',
+REDUCED = ['i1', 'i2l', 'i3', 'dn', 'dx', 'm0', 'mab', 'rx', 'rxlb', 'b35', 'r1', 'rs', 'rst', 'sn', 'ss', 'su', 'suo', 'sua', 'sw', 'sa', 'sr', 'o1', 'oz', 'os', 'or', 'eb1',
            'p_at3', 'p_atn', 'p_shm1', 'p_shm2d', 'p_al2', 'p_al3', 'p_al4i', 'p_em4', 'p_d0', 'eos']
 
 
